@@ -68,6 +68,8 @@ func c03Envs(r *core.Rand) []map[string]any {
 	}
 	// an empty (but not nil) map, and a nil map: assign/capture/loop variables must not be written into them
 	out = append(out, map[string]any{}, nil)
+	// a binding that looks like the engine's own loop record: nothing may be written into it
+	out = append(out, map[string]any{"forloop": map[string]any{".cycles": map[string]int{}, "index": 7, "length": 9, "first": true}, "spare": []any{1, 2}, "words": []any{"w"}})
 	return out
 }
 
@@ -85,6 +87,7 @@ var c03Fixed = []string{
 	"{% xbump hits %}{% xbump hits %}{{ hits }}{% xbump n %}{{ n }}{% xbump spare %}{{ spare }}", "{% xbump k %}{% for x in spare %}{% xbump loops %}{% endfor %}{{ loops }}{{ k }}",
 	"{{ ms.Title }}|{{ ms.Upper }}|{{ ms.Slug }}|{{ ms.nosuch }}", "{{ ta.label }}:{{ ta.cost }}:{{ ta.Sku }}|{{ tb.label }}:{{ tb.cost }}:{{ tb.Sku }}|{{ ta.Name }}{{ tb.Email }}",
 	"{% for r in recs %}{{ r.size }}{% xcard r %}{% endfor %}{{ recs[0].size }}{% xcard nothing %}{% xcard longrecs[3] %}", "{% xcard recs.first %}{% xcard recs.last %}{{ recs.last | size }}{{ incard }}",
+	"{% cycle 'a', 'b', 'c' %}|{{ forloop.index }}", "{{ forloop.index }}{{ forloop.length }}{% for x in spare %}{% cycle 'p', 'q' %}{{ forloop.index }}{% endfor %}{{ forloop.index }}{% cycle 'g': 'x', 'y' %}",
 	"{% xtwice %}{% cycle 'a', 'b', 'c' %}{% assign tw = tw | append: 'x' %}{% endxtwice %}{{ tw }}", "{% xwhen spare contains 3 %}{% xset st = nil %}{% xset recs = 1 %}{% endxwhen %}{{ st }}{{ recs }}{% xecho {{ spare | reverse | join: ',' }} %}",
 	"{{ words | join: ',' | split: ',' | sort | last }}{{ words | first | append: '!' }}", "{% case spare.size %}{% when 4 %}{% assign four = true %}{% endcase %}{{ four }}{% unless four %}U{% endunless %}",
 }
@@ -140,6 +143,10 @@ func runC03(c *core.Ctx) {
 			f.Errors = true
 			f.MapLoops = true
 			f.MaxNodes = 10
+			// generated templates do not feed a captured or assigned variable back into its own definition: inside nested
+			// loops that squares a string per iteration (s | replace: '', s) and exhausts memory, which is the template's doing
+			// (the fixed templates do shadow and re-assign bindings)
+			f.NoVarReuse = true
 			g := gen.NewG(r, f, gen.StdEnv(r))
 			srcs = append(srcs, gen.DefaultStyle.Source(g.Program()))
 		}
